@@ -181,9 +181,24 @@ class Gen:
             opts += ["CSWAP"]
         if len(focks) >= 2:
             opts += ["BS", "BS"] if self.focus not in ("C11",) else ["BS"] * 6
+        nonf = [s for s in mem if not isinstance(s, Fock)]
+        if len(nonf) >= 2:
+            opts += ["EXPR"] * (4 if self.focus in ("C03", "C16") else 1)
         if not opts:
             return None
         g = r.choice(opts)
+        if g == "EXPR":
+            k = min(len(nonf), r.choice([2, 3, 3, 3, 4]))
+            ts = r.sample(nonf, k)
+            if int(np.prod([dims_of(t) for t in ts])) > 24:
+                ts = ts[:2]
+            facs = []
+            for t in ts:
+                d = dims_of(t)
+                facs.append(rand_unitary(self.rs, d) if r.random() < 0.6 else self.rs.randn(d, d) + 1j * self.rs.randn(d, d))
+            return {"kind": "op", "gate": "Expr", "targets": [w.sid(t) for t in ts], "entry": "ce", "h": hi,
+                    "factors": [mj(m) for m in facs], "types": [type(t).__name__ for t in ts],
+                    "form": r.choice(["flat", "flat", "right", "left", "mid"])}
         if g == "BS":
             ts = r.sample(focks, 2)
             if not all(self.guard_ok(w, t) for t in ts):
@@ -443,7 +458,11 @@ class Gen:
             if not isinstance(t.index, tuple):
                 return None
             mem = [s for s in w.handles[hi].state_objs if not getattr(s, "measured", False) and s is not t and isinstance(s.index, tuple)]
-            if mem and r.random() < 0.5:
+            other = [s for s in mem if s.index[0] != t.index[0]]
+            if other and r.random() < 0.6:
+                # operands in two different product spaces: exactly those two are joined
+                ts.append(r.choice(other))
+            elif mem and r.random() < 0.5:
                 ts.append(r.choice(mem))
         if en == "env":
             e = t.envelope
@@ -477,7 +496,7 @@ class Gen:
 
     def invalid(self, w):
         r = self.rng
-        what = r.choice(["kraus_not_tp", "kraus_wrong_size", "povm_wrong_size", "wrong_kind", "custom_wrong_size", "shrink_below_support", "annihilate_vacuum", "destroyed"])
+        what = r.choice(["kraus_not_tp", "kraus_imag_defect", "kraus_offdiag_defect", "kraus_wrong_size", "povm_wrong_size", "wrong_kind", "custom_wrong_size", "shrink_below_support", "annihilate_vacuum", "destroyed"])
         cands = self.live(w)
         if not cands:
             return None
@@ -486,13 +505,30 @@ class Gen:
         st = {"kind": "invalid", "what": what, "targets": [w.sid(t)], "entry": en}
         if en == "ce":
             st["h"] = self.handle_of(w, t)
-        if isinstance(t, Fock) and t.dimensions < 0 and what in ("kraus_not_tp", "kraus_wrong_size", "povm_wrong_size"):
+        if isinstance(t, Fock) and t.dimensions < 0 and (what.startswith("kraus_") or what == "povm_wrong_size"):
             return None
         d = dims_of(t)
         if what == "kraus_not_tp":
             ops = rand_kraus(self.rs, d, 2)
             ops[1] = ops[1] * 0.5
             st["ops"] = [mj(K) for K in ops]
+        elif what in ("kraus_imag_defect", "kraus_offdiag_defect"):
+            # sum K^dagger K = I + B with B Hermitian, zero on the diagonal (so the trace and the
+            # diagonal are those of the identity) and either purely imaginary or purely real
+            if d < 2:
+                return None
+            a = self.rs.randn(d, d)
+            B = (a - a.T) * 1j if what == "kraus_imag_defect" else (a + a.T) - 2 * np.diag(np.diag(a))
+            B = B * (r.uniform(0.3, 0.8) / np.linalg.norm(B, 2))
+            ev, V = np.linalg.eigh(np.eye(d) + B)
+            K = (V * np.sqrt(ev)) @ V.conj().T
+            if r.random() < 0.5:
+                q = r.uniform(0.2, 0.8)
+                u = rand_unitary(self.rs, d)
+                ops = [math.sqrt(q) * K, math.sqrt(1 - q) * (u @ K)]
+            else:
+                ops = [K]
+            st["ops"] = [mj(x) for x in ops]
         elif what == "kraus_wrong_size":
             st["ops"] = [mj(K) for K in rand_kraus(self.rs, d + 1, 2)]
         elif what == "povm_wrong_size":
@@ -617,6 +653,48 @@ class Gen:
             out.append({"kind": "measure", "targets": m, "entry": r.choice(["ce", "ce", "state"]), "h": 0, "sep": True, "destructive": r.random() < 0.4})
             if out[-1]["entry"] == "state":
                 out[-1]["targets"] = m[:1]
+        elif f == "C08" and r.random() < 0.35:
+            # nearly pure state: a weak channel (mixing probability 2e-6 .. 5e-5) on a subsystem in
+            # superposition, own / combined-envelope / product-space storage, followed by a few
+            # purity-preserving steps; automatic contraction must leave it alone (or contract it exactly)
+            nf = [x for x in w.subs if not isinstance(x, Fock)]
+            t = r.choice(nf)
+            ts = sid(t)
+            out.append(cplx_op(ts))
+            where = r.choice(["own", "env", "ps", "ps"])
+            other = None
+            if where == "env" and not isinstance(t, CustomState):
+                out.append({"kind": "struct", "what": "env_combine", "env": ix(w.envs, t.envelope)})
+            elif where == "ps" and H is not None and has(members(0), t):
+                others = [x for x in members(0) if x is not t and not (isinstance(x, Fock) and x.dimensions < 0)]
+                if others:
+                    other = r.choice(others)
+                    if not isinstance(other, Fock):
+                        out.append(cplx_op(sid(other)))
+                    pair = [ts, sid(other)]
+                    r.shuffle(pair)
+                    out.append({"kind": "struct", "what": "ce_combine", "h": 0, "targets": pair})
+                    if isinstance(other, Polarization) and isinstance(t, Polarization):
+                        out.append({"kind": "op", "gate": "CX", "targets": pair, "entry": "ce", "h": 0})
+            out.append({"kind": "struct", "what": "set_contraction", "on": r.random() < 0.8})
+            d = dims_of(t)
+            pmix = 10 ** r.uniform(-5.7, -4.3)
+            U = rand_unitary(self.rs, d)
+            en = r.choice(["state", "ce"] if H is not None and has(members(0), t) else ["state"])
+            st = {"kind": "kraus", "targets": [ts], "entry": en, "weak": True,
+                  "ops": [mj(math.sqrt(1 - pmix) * np.eye(d)), mj(math.sqrt(pmix) * U)]}
+            if en == "ce":
+                st["h"] = 0
+            out.append(st)
+            for _ in range(r.choice([0, 1, 2])):
+                k = r.random()
+                if k < 0.5:
+                    out.append(cplx_op(r.choice([ts] + ([sid(other)] if other is not None and not isinstance(other, Fock) else []))))
+                elif k < 0.75:
+                    out.append({"kind": "struct", "what": "expand", "entry": "state", "targets": [ts]})
+                else:
+                    out.append({"kind": "struct", "what": "set_contraction", "on": True})
+            out.append({"kind": "stop"})
         elif f == "C08":
             cands = [sid(x) for x in w.subs]
             t = r.choice(cands)
@@ -654,6 +732,49 @@ class Gen:
                     out.append({"kind": "struct", "what": "expand", "entry": "ce", "h": 0, "targets": [a]})
                 out.append({"kind": "op", "targets": [r.choice([a, b2])], "entry": r.choice(["state", "ce"]), "h": 0, "gate": "PhaseShift", "params": {"phi": r.uniform(0.3, 2.8)}})
                 out.append({"kind": "op", "gate": "BS", "targets": [a, b2], "entry": "ce", "h": 0, "params": {"eta": math.pi / 4}})
+        elif f == "C10" and H is not None and len(members(0)) >= 4 and r.random() < 0.5:
+            # a Fock space in the *second* product space of a composite, at density-matrix level,
+            # then resized explicitly or by an operation
+            focks = [x for x in members(0) if isinstance(x, Fock)]
+            t = r.choice(focks)
+            rest = [x for x in members(0) if x is not t]
+            r.shuffle(rest)
+            first, partner = rest[:2], rest[2]
+            if self.joint_dim(w) <= 48:
+                out.append({"kind": "struct", "what": "ce_combine", "h": 0, "targets": [sid(x) for x in first]})
+                pair = [sid(t), sid(partner)]
+                r.shuffle(pair)
+                out.append({"kind": "struct", "what": "ce_combine", "h": 0, "targets": pair})
+                if r.random() < 0.5:
+                    out.append({"kind": "struct", "what": "set_contraction", "on": False})
+                    out.append({"kind": "struct", "what": "expand", "entry": "ce", "h": 0, "targets": [sid(t)]})
+                elif not (isinstance(partner, Fock) and partner.dimensions < 0):
+                    out.append({"kind": "kraus", "targets": [sid(partner)], "entry": "ce", "h": 0, "ops": [mj(K) for K in rand_kraus(self.rs, dims_of(partner), 2)]})
+                d = dims_of(t)
+                k = r.random()
+                en = r.choice(["state", "env", "ce"])
+                if k < 0.6:
+                    st = {"kind": "resize", "targets": [sid(t)], "entry": en, "dim": d + r.choice([1, 2, 3])}
+                else:
+                    st = {"kind": "op", "targets": [sid(t)], "entry": en, "gate": "Creation"}
+                if en == "ce":
+                    st["h"] = 0
+                out.append(st)
+        elif f == "C10" and E and r.random() < 0.3:
+            # combined envelope stored polarization-first (or fock-first), then the Fock space is resized
+            i0 = r.randrange(len(E))
+            e = E[i0]
+            fs, ps_ = sid(e.fock), sid(e.polarization)
+            d = dims_of(e.fock)
+            if self.joint_dim(w) // max(d, 1) * (d + 3) <= self.CAP:
+                out.append({"kind": "resize", "targets": [fs], "entry": "state", "dim": d + r.choice([1, 2, 3])})
+                out.append({"kind": "struct", "what": "env_combine", "env": i0})
+                if r.random() < 0.7:
+                    out.append({"kind": "struct", "what": "env_reorder", "env": i0, "targets": [ps_, fs]})
+                if r.random() < 0.5:
+                    out.append({"kind": "struct", "what": "set_contraction", "on": False})
+                    out.append({"kind": "struct", "what": "expand", "entry": "env", "targets": [fs]})
+                out.append({"kind": "resize", "targets": [fs], "entry": r.choice(["env", "env", "state"]), "dim": d + r.choice([-1, 0, 0, 1, 1, 2])})
         elif f == "C10":
             # repeated displacements along one (complex) direction: the state is a superposition when
             # the cutoff for the second one is estimated
@@ -708,6 +829,8 @@ class Gen:
             if not (isinstance(t, Fock) and t.dimensions < 0):
                 out.append({"kind": "kraus", "targets": [c1], "entry": "state", "ops": [mj(K) for K in rand_kraus(self.rs, dims_of(t), 2)]})
             out.append({"kind": "struct", "what": "ce_combine", "h": 0, "targets": [c1, c2]})
+            if r.random() < 0.5:
+                out.append({"kind": "trace_out", "targets": [r.choice(A), r.choice([c1, c2])], "entry": "ce", "h": 0})
         return out
 
     WEIGHTS = {
@@ -725,7 +848,7 @@ class Gen:
         "C13": dict(op1=2, opn=2, kraus=1, measure=2, povm=1, struct=6),
         "C17": dict(op1=4, opn=2, kraus=1, struct=2, invalid=5, measure=1),
         "C18": dict(op1=2, opn=1, measure=8, struct=4, kraus=0.5),
-        "C20": dict(op1=4, opn=3, kraus=2, measure=2, povm=1, struct=4, trace_out=1, resize=1),
+        "C20": dict(op1=4, opn=3, kraus=2, measure=2, povm=1, struct=4, trace_out=3, resize=1),
     }
 
     def next_step(self, w):
